@@ -7,6 +7,7 @@ produced by that module's formatter, never by the library.  Two families:
 * `sgp4_fields(...)` - physically meaningful element sets inside the domain of C07.
 """
 
+import functools
 import math
 
 from hypothesis import strategies as st
@@ -18,46 +19,78 @@ UPPER = "ABCDEFGHIJKLMNOPQRSTUVWXYZ"
 NAME_ALPHABET = "".join(chr(c) for c in range(0x20, 0x7F))
 
 
+@functools.lru_cache(maxsize=None)
 def uniform_int(lo, hi):
-    """Uniform integer in [lo, hi], every decimal digit uniform: Hypothesis' own wide integer
-    ranges are heavily biased towards small magnitudes, ranges <= 1000 are uniform, so the
-    number is assembled from uniform 3-digit groups (modulo bias < 1e-3)."""
+    """Uniform integer in [lo, hi], every decimal digit uniform.  Hypothesis' own wide integer
+    ranges are heavily biased towards small magnitudes (ranges <= 1000 are uniform), so wide
+    ranges are taken from 8 uniformly drawn bytes (one draw; modulo bias < 1e-6; shrinks to lo)."""
     span = hi - lo + 1
     if span <= 1000:
         return st.integers(lo, hi)
-    groups = len(str(span)) // 3 + 2
-    return st.tuples(*[st.integers(0, 999)] * groups).map(
-        lambda g: lo + int("".join(f"{x:03d}" for x in g)) % span)
+    return st.binary(min_size=8, max_size=8).map(lambda b: lo + int.from_bytes(b, "big") % span)
 
 
+@functools.lru_cache(maxsize=None)
 def uniform(lo, hi):
     """Uniform float in [lo, hi) on a 1e-12 grid of the interval."""
     return uniform_int(0, 10**12 - 1).map(lambda k: lo + (hi - lo) * (k / 1e12))
 
 
 def ints(lo, hi, edges=()):
-    """Mixture: 6 uniform, 1 Hypothesis-biased (zero / small magnitudes), 1 edge values."""
+    """Mixture: 6 uniform, 1 Hypothesis-biased (zero / small magnitudes), 1 edge values.
+    (strategies are cached: building one costs far more than drawing from it)"""
+    return _ints(lo, hi, tuple(edges))
+
+
+def floats(lo, hi, edges=()):
+    return _floats(lo, hi, tuple(edges))
+
+
+@functools.lru_cache(maxsize=None)
+def _ints(lo, hi, edges):
     edges = [e for e in edges if lo <= e <= hi] + [lo, hi]
     return _mix((6, uniform_int(lo, hi)), (1, st.integers(lo, hi)), (1, st.sampled_from(edges)))
 
 
-def floats(lo, hi, edges=()):
+@functools.lru_cache(maxsize=None)
+def _floats(lo, hi, edges):
     edges = [e for e in edges if lo <= e <= hi] + [lo, hi]
     return _mix((6, uniform(lo, hi)), (1, st.floats(lo, hi, allow_nan=False)), (1, st.sampled_from(edges)))
 
 
 def _mix(*pairs):
-    """Weighted one_of: pairs of (weight, strategy)."""
-    pool = []
+    """Weighted choice between strategies: pairs of (weight, strategy).  (st.one_of drops repeated
+    branches, so weights cannot be expressed by repetition: an index is drawn instead.)"""
+    if len(pairs) == 1:
+        return pairs[0][1]
+    table = []
     for w, s in pairs:
-        pool += [s] * w
-    return st.one_of(*pool) if len(pool) > 1 else pool[0]
+        table += [s] * w
+    return st.integers(0, len(table) - 1).flatmap(table.__getitem__)
 
 
+UNIT = uniform(0.0, 1.0)
+_NAME_TEXT = st.text(NAME_ALPHABET, min_size=1, max_size=24)
+_PIECE = st.text(UPPER, min_size=1, max_size=3)
+_LAUNCH = _mix((3, st.integers(1, 999)), (1, st.sampled_from([1, 9, 10, 99, 100, 999])))  # <= 1000: uniform
+_YY = _mix((4, st.integers(0, 99)), (1, st.sampled_from([57, 99, 0, 56, 72, 16])))
+_DAY = {nd: _mix((4, st.integers(1, nd)), (1, st.sampled_from([1, 9, 10, 99, 100, nd]))) for nd in (365, 366)}
+_NDOT = _mix((3, ints(-99999999, 99999999, [0, 1, -1, 10000000, -10000000])), (2, ints(-99999, 99999, [0])))
+_ELNUM = _mix((2, ints(1000, 9999)), (1, st.integers(0, 999)),
+              (1, st.sampled_from([0, 9, 10, 99, 100, 999, 1000, 9999])))
+
+
+@functools.lru_cache(maxsize=None)
+def _exp_x(xlo, xhi):
+    # real TLEs live on -3..-5; the rest of the exponent range is the rarely populated part
+    return _mix((1, st.integers(-5, -3)), (2, st.integers(xlo, xhi)))
+
+
+@functools.lru_cache(maxsize=None)
 @st.composite
 def names(draw, for_from_string=False):
     """Trimmed printable name that cannot be mistaken for line 0/1/2 (or a comment)."""
-    s = draw(st.text(NAME_ALPHABET, min_size=1, max_size=24)).strip()
+    s = draw(_NAME_TEXT).strip()
     if not s:
         s = "SAT"
     if s[:2] in ("1 ", "2 ", "0 ") or s in ("0", "1", "2"):
@@ -67,17 +100,19 @@ def names(draw, for_from_string=False):
     return s
 
 
+@functools.lru_cache(maxsize=None)
 @st.composite
 def designators(draw):
     if draw(st.integers(0, 3)) == 0:
         return None
     return dict(
         yy=draw(st.integers(0, 99)),
-        launch=draw(_mix((3, st.integers(1, 999)), (1, st.sampled_from([1, 9, 10, 99, 100, 999])))),  # <= 1000: uniform
-        piece=draw(st.text(UPPER, min_size=1, max_size=3)),
+        launch=draw(_LAUNCH),
+        piece=draw(_PIECE),
     )
 
 
+@functools.lru_cache(maxsize=None)
 @st.composite
 def exp_fields(draw, canonical=True, xlo=-9, xhi=9, allow_negative=True):
     """mantissa/exponent field {"s","m","x"}; canonical = normalised mantissa, zero as +00000 x=0."""
@@ -91,8 +126,7 @@ def exp_fields(draw, canonical=True, xlo=-9, xhi=9, allow_negative=True):
         m = draw(ints(10000, 99999, [50000, 12345]))
     else:
         m = draw(ints(1, 9999))
-    # real TLEs live on -3..-5; the rest of the exponent range is the rarely populated part
-    x = draw(_mix((1, st.integers(-5, -3)), (2, st.integers(xlo, xhi))))
+    x = draw(_exp_x(xlo, xhi))
     return dict(s=s, m=m, x=x)
 
 
@@ -100,16 +134,18 @@ def _year_days(yy):
     return 366 if tlefmt.is_leap(tlefmt.year4(yy)) else 365
 
 
+@functools.lru_cache(maxsize=None)
 @st.composite
-def epochs(draw, yy_strategy=None):
-    yy = draw(yy_strategy if yy_strategy is not None
-              else _mix((4, st.integers(0, 99)), (1, st.sampled_from([57, 99, 0, 56, 72, 16]))))
+def epochs(draw, yy=None):
+    if yy is None:
+        yy = draw(_YY)
     nd = _year_days(yy)
-    day = draw(_mix((4, st.integers(1, nd)), (1, st.sampled_from([1, 9, 10, 99, 100, nd]))))
+    day = draw(_DAY[nd])
     frac = draw(ints(0, 10**8 - 1, [1, 5 * 10**7, 5 * 10**7 - 1]))
     return yy, day * 10**8 + frac
 
 
+@functools.lru_cache(maxsize=None)
 @st.composite
 def styles(draw):
     """Non-canonical but legal encodings (field-preservation clause only)."""
@@ -130,6 +166,7 @@ def styles(draw):
     return st_
 
 
+@functools.lru_cache(maxsize=None)
 @st.composite
 def fields(draw, canonical=True, with_name=None, for_from_string=False):
     """Any field combination allowed by the format."""
@@ -139,12 +176,10 @@ def fields(draw, canonical=True, with_name=None, for_from_string=False):
     f["cat"] = draw(ints(0, 99999, [1, 9, 10, 10000]))
     f["desig"] = draw(designators())
     f["eyy"], f["eday"] = draw(epochs())
-    f["ndot"] = draw(_mix((3, ints(-99999999, 99999999, [0, 1, -1, 10000000, -10000000])),
-                          (2, ints(-99999, 99999, [0]))))
+    f["ndot"] = draw(_NDOT)
     f["nddot"] = draw(exp_fields(canonical))
     f["bstar"] = draw(exp_fields(canonical))
-    f["elnum"] = draw(_mix((2, ints(1000, 9999)), (1, st.integers(0, 999)),
-                           (1, st.sampled_from([0, 9, 10, 99, 100, 999, 1000, 9999]))))
+    f["elnum"] = draw(_ELNUM)
     f["rev"] = draw(ints(0, 99999, [9, 10, 9999, 10000]))
     ang = ints(0, 3599999, [1, 9999, 10000, 99999, 100000, 999999, 1000000])
     f["inc"] = draw(ints(0, 1800000, [1, 900000, 99999, 100000, 999999, 1000000]))
@@ -203,34 +238,42 @@ def perigee_alt_km(n_revday, e):
     return a * (1 - e) - _RE72
 
 
+_LIM = 1440.0 / 225.0  # 6.4 rev/day <=> period of 225 min
+_N_RANGE = {"deep": (0.5, _LIM - 1e-6), "near": (_LIM + 1e-6, 16.5), "native": (_LIM + 1e-6, 16.5),
+            "any": (0.5, 16.5)}
+_N_STRAT = {k: _mix((4, uniform(lo, hi)),
+                    (1, st.sampled_from([x for x in (1.0027, 2.0056, 1.0, 2.0, 0.5, 6.3, 6.39, 6.41, 6.5, 15.5, 16.5,
+                                                     14.2) if lo <= x <= hi])))
+            for k, (lo, hi) in _N_RANGE.items()}
+_SGP4_YY = _mix((27, st.integers(73, 99)), (18, st.integers(0, 17)))  # 1973 .. 2017
+_INC = _mix((6, uniform(0, 180)), (2, uniform(90, 180)),
+            (1, st.sampled_from([0.0, 180.0, 90.0, 63.4349, 116.5651, 98.0, 51.6, 28.5, 0.0001, 179.9999])))
+_LOG_E_TINY = uniform(-7, -4)
+_ZERO_EXP = dict(s=1, m=0, x=0)
+_NDDOT_SGP4 = _mix((2, st.just(_ZERO_EXP)),
+                   (1, st.builds(lambda s, m, x: dict(s=s, m=m, x=x), st.sampled_from([1, -1]),
+                                 uniform_int(10000, 99999), st.integers(-9, -5))))
+_NDOT_SGP4 = _mix((1, st.just(0)), (4, uniform_int(-99999, 99999)))
+
+
+@functools.lru_cache(maxsize=None)
 @st.composite
 def sgp4_fields(draw, regime="any", min_perigee_km=120.0):
     """Element sets in C07's domain: any inclination, e in [0, 0.9], n in [0.5, 16.5] rev/day,
     perigee above `min_perigee_km`, |B*| <= 1e-2, epochs 1973-2017.
 
     regime: "near" (period < 225 min), "deep" (period >= 225 min), "native" (period < 225 min and
-    perigee >= 220 km, the reference's full near-Earth model), "any".
+    perigee >= 225 km: inside the reference's full near-Earth model), "any".
     """
     f = {"name": draw(names()) if draw(st.integers(0, 3)) == 0 else None}
     f["cat"] = draw(ints(1, 99999))
     f["desig"] = draw(designators())
-    # 1973-01-03 .. 2017: years 73..99, 00..17
-    yy = draw(_mix((27, st.integers(73, 99)), (18, st.integers(0, 17))))
-    f["eyy"], f["eday"] = draw(epochs(st.just(yy)))
+    yy = draw(_SGP4_YY)
+    f["eyy"], f["eday"] = draw(epochs(yy))
     if yy == 73 and f["eday"] < 3 * 10**8:
-        f["eday"] += 2 * 10**8
-    # 6.4 rev/day <=> 225 min
-    lim = 1440.0 / 225.0
-    if regime == "deep":
-        nlo, nhi = 0.5, lim - 1e-6
-    elif regime in ("near", "native"):
-        nlo, nhi = lim + 1e-6, 16.5
-    else:
-        nlo, nhi = 0.5, 16.5
-    floor_km = max(min_perigee_km, 220.5) if regime == "native" else min_perigee_km
-    n = draw(_mix((4, uniform(nlo, nhi)),
-                  (1, st.sampled_from([x for x in (1.0027, 2.0056, 1.0, 2.0, 0.5, 6.3, 6.5, 15.5, 16.5, 14.2)
-                                       if nlo <= x <= nhi]))))
+        f["eday"] += 2 * 10**8  # not before 1973-01-03
+    floor_km = max(min_perigee_km, 225.0) if regime == "native" else min_perigee_km
+    n = draw(_N_STRAT[regime])
     # eccentricity: mass at 0, below 1e-4, above 0.5 - capped by the perigee floor
     a = (_MU72 / (n * 2 * math.pi / 86400.0) ** 2) ** (1.0 / 3.0)
     emax = min(0.9, 1 - (_RE72 + floor_km + 0.5) / a)
@@ -240,37 +283,38 @@ def sgp4_fields(draw, regime="any", min_perigee_km=120.0):
         a = (_MU72 / (n * 2 * math.pi / 86400.0) ** 2) ** (1.0 / 3.0)
         emax = max(0.0, min(0.9, 1 - (_RE72 + floor_km + 0.5) / a))
     kind = draw(st.integers(0, 9))
+    u = draw(UNIT)
     if kind == 0:
         e = 0.0
     elif kind <= 2:
-        e = min(emax, 10 ** draw(uniform(-7, -4)))
+        e = min(emax, 10 ** draw(_LOG_E_TINY))
     elif kind <= 4 and emax > 0.5:
-        e = draw(uniform(0.5, emax))
+        e = 0.5 + (emax - 0.5) * u
+    elif kind == 5:
+        e = emax  # perigee right at the floor
+    elif kind == 6:
+        e = min(emax, 10 ** (-5 + 3 * u))  # both sides of the model's e = 1e-4 switch
     else:
-        e = draw(uniform(0, emax))
+        e = emax * u
     f["n"] = int(round(n * 10**8))
     f["ecc"] = min(int(e * 10**7), 9000000)
-    inc = draw(_mix((6, uniform(0, 180)), (2, uniform(90, 180)),
-                    (1, st.sampled_from([0.0, 180.0, 90.0, 63.4349, 116.5651, 98.0, 51.6, 28.5, 0.0001, 179.9999]))))
-    f["inc"] = int(round(inc * 10**4))
+    f["inc"] = int(round(draw(_INC) * 10**4))
     ang = ints(0, 3599999)
     f["raan"], f["argp"], f["ma"] = draw(ang), draw(ang), draw(ang)
     # B*: |B*| <= 1e-2 including 0 and negative
-    k = draw(st.integers(0, 9))
-    if k == 0:
-        f["bstar"] = dict(s=1, m=0, x=0)
+    k = draw(st.integers(0, 19))
+    if k < 2:
+        f["bstar"] = dict(_ZERO_EXP)
     else:
-        x = draw(st.integers(-8, -2))
-        m = draw(uniform_int(10000, 99999))  # 0.99999e-2 at most
         s = -1 if draw(st.integers(0, 4)) == 0 else 1
-        f["bstar"] = dict(s=s, m=m, x=x)
-        if draw(st.integers(0, 19)) == 0:
+        if k == 2:
             f["bstar"] = dict(s=s, m=10000, x=-1)  # |B*| = 1e-2, the bound itself
-    # ndot/2 small, both signs (not used by SGP4, but travels through the text)
-    f["ndot"] = draw(_mix((1, st.just(0)), (4, uniform_int(-99999, 99999))))
-    f["nddot"] = draw(_mix((2, st.just(dict(s=1, m=0, x=0))),
-                           (1, st.builds(lambda s, m, x: dict(s=s, m=m, x=x), st.sampled_from([1, -1]),
-                                         uniform_int(10000, 99999), st.integers(-9, -5)))))
+        else:
+            # 0.99999e-2 at most
+            f["bstar"] = dict(s=s, m=draw(uniform_int(10000, 99999)), x=draw(st.integers(-8, -2)))
+    # ndot/2, nddot/6: not used by SGP4, but they travel through the regenerated text
+    f["ndot"] = draw(_NDOT_SGP4)
+    f["nddot"] = dict(draw(_NDDOT_SGP4))
     f["elnum"] = draw(uniform_int(0, 9999))
     f["rev"] = draw(uniform_int(0, 99999))
     return f
